@@ -144,6 +144,28 @@ inline bool same(const Var& a, const Var& b, std::string& why, int depth = 0)
 	}
 }
 
+// Reuse of one XdlParser for several documents: reset() is the interface for it (src/Xdl.cpp: back to the ROOT context,
+// WAIT_VALUE, empty token buffer).  On the unchanged tree it gives the behaviour of a fresh parser exactly when the
+// previous document was COMPLETE (value().ok(): root context, not inside a comment, no open container left on the
+// container stack) -- after a truncated document or an unterminated comment reset() leaves stale containers / the comment
+// flag behind, so nothing is asserted there.  One more piece of state survives reset(): the pending first half of a
+// surrogate pair after an unpaired \uD800-\uDBFF escape (outside the property's domain).  This scan is conservative:
+// true if some high-surrogate escape is not directly followed by another \uXXXX.
+inline bool may_leave_surrogate_pending(const std::string& t)
+{
+	auto hex = [](char c) { return (c >= '0' && c <= '9') || ((c | 32) >= 'a' && (c | 32) <= 'f'); };
+	for (size_t i = 0; i + 6 <= t.size(); i++) {
+		if (t[i] != '\\' || t[i + 1] != 'u')
+			continue;
+		char a = (char)(t[i + 2] | 32), b = (char)(t[i + 3] | 32);
+		if (a == 'd' && (b == '8' || b == '9' || b == 'a' || b == 'b') && hex(t[i + 4]) && hex(t[i + 5])) {
+			if (!(i + 12 <= t.size() && t[i + 6] == '\\' && t[i + 7] == 'u'))
+				return true;
+		}
+	}
+	return false;
+}
+
 // the decoded Var denotes the value the independent parser read (numbers numerically: 5.0 may be an INT)
 inline bool same_as_ref(const ref::JValue& r, const Var& v, std::string& why)
 {
